@@ -52,8 +52,19 @@ def classify(v):
         if 'v' in rs and 'u' not in rs:
             return ('M', uid)
         return None
-    if not roles and v.ndim == 2 and 'opalg' in v.tags:
+    if not roles and v.ndim == 2 and opalg_of(v) is not None:
         return ('S', str(v.shape[0]))
+    return None
+
+
+def opalg_of(v):
+    """elementary-operator normal form of an array; an untouched np.zeros array is the zero operator (empty reaction list)"""
+    if not isinstance(v, Arr):
+        return None
+    if 'opalg' in v.tags:
+        return v.tags['opalg']
+    if v.tags.get('const') == 'zeros' and not v.tags.get('stores'):
+        return Op()
     return None
 
 
@@ -136,13 +147,25 @@ def check(repo, tier):
         fn = repo.fn(qual)
         return Finding('C12', rule, fn.where, what, msg, fn.file, line or fn.node.lineno)
     entry = f'{SLIM}.slim_mme'
-    for d, cyclic in itertools.product(orders, (False, True)):
-        scen = f'slim_mme(cells={d}, {"cyclic" if cyclic else "open"})'
+    variants = ('alternating', 'no single-cell reactions in cell 1', 'no reaction on bond 0', 'no reaction on the last bond', 'full lists everywhere') if tier == 'thorough' else ('alternating',)
+    for d, cyclic, variant in itertools.product(orders, (False, True), variants):
+        scen = f'slim_mme(cells={d}, {"cyclic" if cyclic else "open"}' + (f', {variant}' if variant != 'alternating' else '') + ')'
 
         def body(sc):
             ss = [sc.atom(f'n{i}') for i in range(d)]
-            scr = [[list(r) for r in SCR] if i % 2 == 0 else [list(SCR[0])] for i in range(d)]
-            tcr = [[list(r) for r in TCR] if i % 2 == 0 else [list(TCR[1])] for i in range(d if cyclic else d - 1)]
+            nb = d if cyclic else d - 1
+            if variant == 'full lists everywhere':
+                scr = [[list(r) for r in SCR] for i in range(d)]
+                tcr = [[list(r) for r in TCR] for i in range(nb)]
+            else:
+                scr = [[list(r) for r in SCR] if i % 2 == 0 else [list(SCR[0])] for i in range(d)]
+                tcr = [[list(r) for r in TCR] if i % 2 == 0 else [list(TCR[1])] for i in range(nb)]
+            if variant == 'no single-cell reactions in cell 1':
+                scr[1] = []
+            if variant == 'no reaction on bond 0':
+                tcr[0] = []
+            if variant == 'no reaction on the last bond':
+                tcr[-1] = []
             sc.inputs = (ss, scr, tcr)
             return sc.call(entry, ss, scr, tcr, threshold=0)
         for ch, sc, res, exc in l2.explore(repo, body, typed=False):
@@ -193,16 +216,16 @@ def check(repo, tier):
             # D2 elementary terms
             for k, c in enumerate(res._attrs['cores']):
                 svals = [st['value'] for st in c.tags.get('stores', []) if classify(st['value']) == S(k)]
-                ok = len(svals) == 1 and svals[0].tags['opalg'].same(expected_single(scr[k]))
-                run.oblige('D2', (entry, scen, f'single{k}'), ok, sample={'rule': 'D2', 'cell': k, 'single_cell_term': repr(svals[0].tags['opalg']) if svals else None} if d == 2 and not cyclic else None)
+                ok = len(svals) == 1 and opalg_of(svals[0]).same(expected_single(scr[k]))
+                run.oblige('D2', (entry, scen, f'single{k}'), ok, sample={'rule': 'D2', 'cell': k, 'single_cell_term': repr(opalg_of(svals[0])) if svals else None} if d == 2 and not cyclic else None)
                 if not ok:
-                    run.add(F(entry, 'D2', 'single-cell term', f'{scen}: the single-cell matrix of cell {k} is {svals[0].tags["opalg"] if svals else None}, the definition gives {expected_single(scr[k])}'))
+                    run.add(F(entry, 'D2', 'single-cell term', f'{scen}: the single-cell matrix of cell {k} is {opalg_of(svals[0]) if svals else None}, the definition gives {expected_single(scr[k])}'))
             for b, uid in uids.items():
                 e = [x for x in sc.events('svd') if x['uid'] == uid][0]
                 root = e['array']
-                while isinstance(root, Arr) and 'opalg' not in root.tags and root.parents:
+                while isinstance(root, Arr) and opalg_of(root) is None and root.parents:
                     root = root.parents[0]
-                got = root.tags.get('opalg') if isinstance(root, Arr) else None
+                got = opalg_of(root)
                 want_op = expected_double(tcr[b])
                 ok = got is not None and got.same(want_op)
                 run.oblige('D2', (entry, scen, f'double{b}'), ok)
